@@ -296,7 +296,8 @@ structure StreamI (σ : Type) where
   /-- an upper bound on the bytes the stream can still deliver (used only as loop fuel by the model) -/
   bound : σ → Nat
 
-def fileStream (B : Nat) : StreamI IStream := ⟨fileGet B, fileAdvance, fun s => s.buf.length + s.src.length⟩
+def fileStream (B : Nat) : StreamI IStream :=
+  ⟨fileGet B, fileAdvance, fun s => (s.buf.length - s.off) + s.src.length⟩
 
 /-- Return value of `sqfs_istream_read` / `splice`: the bytes transferred (`total`) or a negative error. -/
 inductive RdRet where
